@@ -453,3 +453,164 @@ Proof.
   rewrite orb_true_iff, !N.eqb_eq. tauto.
 Qed.
 End Layers.
+
+(* ===================================================================================== *)
+(* identification by hash                                                                   *)
+Definition feq (f g : asg -> bool) : Prop := forall a, f a = g a.
+Definition fnot (f : asg -> bool) : asg -> bool := fun a => negb (f a).
+
+Section Identify.
+Variable m : mode.
+Variable P : N.
+Hypothesis OK : ff_ok P.
+Variable w : wmap.
+Hypothesis WR : wrange P w.
+
+(* equal functions are never judged different -- neither by the equality test on hashes (sdd_eq)
+   nor by the table lookup under the hash and under the negated hash *)
+Theorem semantic_never_splits p q : free_bdd p -> free_bdd q -> vars_in p w -> vars_in q w ->
+  (feq (den p) (den q) -> hash_m m P w p = hash_m m P w q) /\
+  (feq (den p) (fnot (den q)) -> hash_m m P w p = hneg m P (hash_m m P w q)) /\
+  (feq (den p) (den q) \/ feq (den p) (fnot (den q)) ->
+   hash_match m P (hash_m m P w p) (hash_m m P w q) = true).
+Proof.
+  intros Fp Fq Vp Vq.
+  assert (A : feq (den p) (den q) -> hash_m m P w p = hash_m m P w q)
+    by (intros E; apply (hash_denotational m P OK w WR); assumption).
+  assert (B : feq (den p) (fnot (den q)) -> hash_m m P w p = hneg m P (hash_m m P w q))
+    by (intros E; apply (hash_denotational_neg m P OK w WR); assumption).
+  split; [exact A|]. split; [exact B|].
+  intros [E|E].
+  - rewrite (A E). unfold hash_m. rewrite (hash_c_exact m P OK w WR q Vq).
+    apply (hash_match_spec m P OK); try apply (zhash_c_lt P OK w WR). left; reflexivity.
+  - rewrite (B E). unfold hash_m, hneg. rewrite (hash_c_exact m P OK w WR q Vq). cbn [bind].
+    destruct OK as [HP HP2]. rewrite ff_negate_exact_gen by (try apply (zhash_c_lt P (conj HP HP2) w WR); assumption).
+    apply (hash_match_spec m P (conj HP HP2)); try apply (zhash_c_lt P (conj HP HP2) w WR).
+    + apply zp_sub_lt; lia.
+    + right; reflexivity.
+Qed.
+
+(* CONDITIONAL correctness of identification by hash, on diagrams: if the hash is injective on
+   a negation-closed set D of diagrams (those an execution touches), then "same hash or negated
+   hash" decides "same function or negated function" on D.  The case hash p = negate (hash q)
+   needs hash_neg: negate (hash q) is the hash of the diagram neg q, which is in D. *)
+Theorem semantic_correct_if_injective (D : bdd -> Prop) :
+  (forall p, D p -> free_bdd p /\ vars_in p w) ->
+  (forall p, D p -> D (neg p)) ->
+  (forall p q, D p -> D q -> hash_m m P w p = hash_m m P w q -> feq (den p) (den q)) ->
+  forall p q, D p -> D q ->
+  (hash_m m P w p = hash_m m P w q <-> feq (den p) (den q)) /\
+  (hash_m m P w p = hneg m P (hash_m m P w q) <-> feq (den p) (fnot (den q))) /\
+  (hash_match m P (hash_m m P w p) (hash_m m P w q) = true <->
+   (feq (den p) (den q) \/ feq (den p) (fnot (den q)))).
+Proof.
+  intros WF CL INJ p q Dp Dq.
+  destruct (WF p Dp) as [Fp Vp]. destruct (WF q Dq) as [Fq Vq].
+  destruct (semantic_never_splits p q Fp Fq Vp Vq) as (A & B & C).
+  assert (N1 : hash_m m P w p = hneg m P (hash_m m P w q) -> feq (den p) (fnot (den q))).
+  { intros E. destruct (hash_neg m P OK w WR q Vq) as [E' _]. rewrite <- E' in E.
+    intros a. rewrite (INJ p (neg q) Dp (CL q Dq) E a). apply den_neg. }
+  split; [split; [apply INJ; assumption | exact A]|].
+  split; [split; [exact N1 | exact B]|].
+  split; [|exact C].
+  intros H. unfold hash_m in H. rewrite (hash_c_exact m P OK w WR p Vp), (hash_c_exact m P OK w WR q Vq) in H.
+  apply (hash_match_spec m P OK) in H; try apply (zhash_c_lt P OK w WR).
+  destruct H as [H|H].
+  - left. apply INJ; try assumption. unfold hash_m.
+    rewrite (hash_c_exact m P OK w WR p Vp), (hash_c_exact m P OK w WR q Vq). f_equal. exact H.
+  - right. apply N1. unfold hash_m, hneg.
+    rewrite (hash_c_exact m P OK w WR p Vp), (hash_c_exact m P OK w WR q Vq). cbn [bind].
+    destruct OK as [HP HP2]. rewrite ff_negate_exact_gen by (try apply (zhash_c_lt P (conj HP HP2) w WR); assumption).
+    f_equal. exact H.
+Qed.
+
+(* the same on FUNCTIONS (representation-free: any structure whose hash is the defining sum --
+   free BDDs by hash_is_sum; SDDs by the correspondence): [fhash] over a fixed variable list *)
+Variable vars : list var.
+Variable x : asg.
+Notation Hf f := (fhash P w vars f x).
+
+Theorem semantic_correct_if_injective_fn (F : (asg -> bool) -> Prop) :
+  (forall f, F f -> F (fnot f)) ->
+  (forall f g, F f -> F g -> Hf f = Hf g -> feq f g) ->
+  forall f g, F f -> F g ->
+  (Hf f = Hf g <-> feq f g) /\
+  (Hf f = zp_sub P 1 (Hf g) <-> feq f (fnot g)) /\
+  (hash_match m P (Some (Hf f)) (Some (Hf g)) = true <-> (feq f g \/ feq f (fnot g))).
+Proof.
+  intros CL INJ f g Ff Fg.
+  assert (A : Hf f = Hf g <-> feq f g).
+  { split; [apply INJ; assumption | intros E; apply (fhash_ext P OK w WR); exact E]. }
+  assert (B : Hf f = zp_sub P 1 (Hf g) <-> feq f (fnot g)).
+  { rewrite <- (fhash_neg P OK w WR vars g x). split.
+    - apply INJ; auto. apply (CL g Fg).
+    - intros E. apply (fhash_ext P OK w WR). exact E. }
+  split; [exact A|]. split; [exact B|].
+  rewrite (hash_match_spec m P OK) by apply (fhash_lt P OK w WR). rewrite A, B. tauto.
+Qed.
+End Identify.
+
+(* ===================================================================================== *)
+(* outside the property: the node caches do not record the field or the map                *)
+Lemma cache_reused_with_other_field :
+  let p := BN false 0 BF BT in                      (* the variable x0 *)
+  let w1 := [(prime_U32_TINY - 4, 5)] in let w2 := [(prime_U32_SMALL - 6, 7)] in
+  weights_ok prime_U32_TINY w1 = true /\ weights_ok prime_U32_SMALL w2 = true /\
+  exists s, cached_hash Checked prime_U32_TINY w1 p [] = Some (5, s) /\
+            cached_hash Checked prime_U32_SMALL w2 p s = Some (5, s) /\
+            hash_m Checked prime_U32_SMALL w2 p = Some 7.
+Proof.
+  cbv zeta. split; [vm_compute; reflexivity|]. split; [vm_compute; reflexivity|].
+  eexists. split; [vm_compute; reflexivity|]. split; vm_compute; reflexivity.
+Qed.
+
+Lemma cache_reused_with_other_map :
+  let p := BN false 0 BF BT in
+  let w1 := [(prime_U32_TINY - 4, 5)] in let w2 := [(prime_U32_TINY - 6, 7)] in
+  weights_ok prime_U32_TINY w1 = true /\ weights_ok prime_U32_TINY w2 = true /\
+  exists s, cached_hash Checked prime_U32_TINY w1 p [] = Some (5, s) /\
+            cached_hash Checked prime_U32_TINY w2 p s = Some (5, s) /\
+            hash_m Checked prime_U32_TINY w2 p = Some 7.
+Proof.
+  cbv zeta. split; [vm_compute; reflexivity|]. split; [vm_compute; reflexivity|].
+  eexists. split; [vm_compute; reflexivity|]. split; vm_compute; reflexivity.
+Qed.
+
+(* the unconditional claim cannot hold: a ring with P elements cannot separate more than P
+   functions; concretely, for a modulus with zero divisors (U32_TINY = 101 * 9901) two different
+   functions already collide for admissible weights *)
+Lemma u32_tiny_not_prime : prime_U32_TINY = 101 * 9901.
+Proof. reflexivity. Qed.
+
+(* injectivity is not a theorem when the weights are inputs: with the zero divisors of
+   Z/1000001, x0 /\ x1 hashes like False for the admissible high weights 101 and 9901 *)
+Lemma hash_not_injective_tiny :
+  let P := prime_U32_TINY in
+  let w := [(P - 101 + 1, 101); (P - 9901 + 1, 9901)] in
+  let p := BN false 0 BF (BN false 1 BF BT) in
+  weights_ok P w = true /\ free_bdd p /\ vars_in p w /\ vars_in BF w /\
+  hash_m Checked P w p = hash_m Checked P w BF /\ den p (fun _ => true) <> den BF (fun _ => true).
+Proof.
+  cbv zeta. split; [vm_compute; reflexivity|].
+  split; [simpl; intuition discriminate|].
+  split; [intros v Hv; simpl in Hv; destruct Hv as [<-|[<-|[]]]; simpl; lia|].
+  split; [intros v []|].
+  split; [vm_compute; reflexivity | simpl; discriminate].
+Qed.
+
+(* ---- wrappers: every exported prime, weights accepted by the model's check ---- *)
+Lemma exported_ok_range P w : In P exported_primes -> weights_ok P w = true -> ff_ok P /\ wrange P w.
+Proof.
+  intros HP HW. pose proof (exported_primes_ok P HP) as OK. split; [exact OK|].
+  destruct OK as [H1 _]. apply weights_ok_range; assumption.
+Qed.
+
+Lemma hash_is_sum_m m P w p vars x : ff_ok P -> wrange P w -> vars_in p w ->
+  free_bdd p -> NoDup vars -> incl (support p) vars ->
+  hash_m m P w p = Some (fhash P w vars (den p) x) /\ fhash P w vars (den p) x < P.
+Proof.
+  intros OK WR V F ND I. split; [|apply (fhash_lt P OK w WR)].
+  unfold hash_m. rewrite (hash_c_exact m P OK w WR p V). f_equal.
+  rewrite (hash_is_sum P OK w WR p false vars x F ND I).
+  apply (fhash_ext P OK w WR). intros a. destruct (den p a); reflexivity.
+Qed.
